@@ -72,6 +72,11 @@ def build(case, use_style):
     if kind == "approval":
         con.assertions = Assertion.make_plurality_assertions(contest=con, winner=list(case["winners"]), loser=losers,
                                                              test=NonnegMean.alpha_mart, estim=NonnegMean.shrink_trunc)
+    elif kind == "super" and len(case["ballots"]) % 2 == 1:
+        # called directly, as the library's own test does, without the optional share_to_win argument:
+        # the contest's share governs
+        con.assertions = Assertion.make_supermajority_assertion(contest=con, winner=case["winners"][0], loser=losers,
+                                                                test=NonnegMean.alpha_mart, estim=NonnegMean.shrink_trunc)
     else:
         Assertion.make_all_assertions(contests)
     cvrs = []
